@@ -559,7 +559,7 @@ func generate(emit func(k kase)) {
 	r := rand.New(rand.NewSource(vh.Seed()*31 + 5))
 	groups := 120
 	if vh.Tier() == "thorough" {
-		groups = 2500
+		groups = 6000
 	}
 	n := 0
 	put := func(k kase) { n++; k.I = n; emit(k) }
